@@ -84,9 +84,13 @@ type execOpts struct {
 func (o execOpts) validate() error {
 	// The provided transaction input index must refer to a valid input.
 	if o.inputIdx < 0 || (o.tx != nil && o.inputIdx > o.tx.InputCount()-1) {
+		inputCount := 0
+		if o.tx != nil {
+			inputCount = len(o.tx.Inputs)
+		}
 		return errs.NewError(
 			errs.ErrInvalidIndex,
-			"transaction input index %d is negative or >= %d", o.inputIdx, len(o.tx.Inputs),
+			"transaction input index %d is negative or >= %d", o.inputIdx, inputCount,
 		)
 	}
 
